@@ -76,6 +76,18 @@ class Boom(Exception):
     pass
 
 
+class BoomBase(BaseException):
+    """An initializer may leave with any exception class, also one that is not an Exception
+    (SystemExit, KeyboardInterrupt, GeneratorExit ...): the property's clauses are the same."""
+
+
+BOOMS = (Boom, BoomBase)
+
+
+def boom(tid, n):
+    return (BoomBase if (tid + n) % 2 else Boom)()
+
+
 class Run:
     """One execution of a set of init_once calls on real threads."""
     def __init__(self, variant):
@@ -129,11 +141,11 @@ def make_worker(run, ffi, tid, calls, tagobj):
                     run.ev(ev="fok", t=tid, v=val)
                     return val
                 run.ev(ev="fexc", t=tid)
-                raise Boom()
+                raise boom(tid, n)
             run.ev(ev="call", t=tid, g=g)
             try:
                 r = ffi.init_once(f, tagobj(g))
-            except Boom:
+            except BOOMS:
                 run.ev(ev="exc", t=tid)
                 run.results.setdefault(tid, []).append(("exc",))
             else:
@@ -336,13 +348,13 @@ def run_stress(ctx, variant, nthreads, tags, ncalls, pexc):
                 time.sleep(slp)
                 if exc:
                     ev(ev="fexc", t=tid)
-                    raise Boom()
+                    raise boom(tid, n)
                 ev(ev="fok", t=tid, v=val)
                 return val
             ev(ev="call", t=tid, g=g)
             try:
                 r = ffi.init_once(f, g)
-            except Boom:
+            except BOOMS:
                 ev(ev="exc", t=tid)
             else:
                 ev(ev="ret", t=tid, v=r)
